@@ -673,6 +673,17 @@ impl<'a> Exec<'a> {
             op.st.expect = None;
             op.blocked = false;
             op.stale_blocked.clear();
+            // K15: this attempt will be refused at submission time.
+            if op.attempts - 1 == op.faults.len() {
+                if let ops::Outcome::Refused { idx } = op.outcome {
+                    let e = ops::ERRNOS[(idx as usize + op.st.id) % ops::ERRNOS.len()];
+                    op.st.expect = Some(ops::Expect::Errno(e));
+                    if let Some(ring) = sim::sim().ring(self.world.ring_fd) {
+                        ring.prep_refuse.push((sqe.user_data, e));
+                    }
+                    self.feats.insert("refused-at-submission".into());
+                }
+            }
             if self.oracles.c04 {
                 if sqe.user_data < 4 || sqe.user_data & !1 == 0 {
                     self.violation("C04:bad-user-data", format!("operation submission carries reserved user_data {:#x}", sqe.user_data));
@@ -1049,6 +1060,7 @@ impl<'a> Exec<'a> {
             C05_RING.store(self.world.ring_fd, std::sync::atomic::Ordering::SeqCst);
             a10::verif::install_point(Some(c05_head_store_adversary));
         }
+        let events_at_poll = sim::events_len();
         let deliverable = cq_tail_before != cq_head_before || !inline.is_empty();
         let timeout = if block && deliverable { None } else { Some(Duration::ZERO) };
         if timeout.is_none() {
@@ -1074,6 +1086,20 @@ impl<'a> Exec<'a> {
             Ok(Ok(())) => {}
         }
         let (sq_head, sq_tail, cq_head, cq_tail, entries) = self.ring_words();
+        // C04: a Ring::poll that entered the kernel handed it the whole queue
+        // (the entries are consumed by the application's own system call;
+        // with a kernel thread they are consumed whenever that thread runs).
+        if self.oracles.c04 {
+            let entered = sim::events_since(events_at_poll.min(sim::events_len())).iter().any(|e| matches!(e, SimEvent::Enter { ret, .. } if *ret >= 0));
+            let sqpoll = sim::sim().ring(self.world.ring_fd).is_some_and(|r| r.is_sqpoll());
+            let left = sq_tail.wrapping_sub(sim::sim().ring(self.world.ring_fd).map_or(sq_tail, |r| r.k_sq_head));
+            if entered && !sqpoll && left > 0 {
+                self.violation("C04:left-unsubmitted", format!("Ring::poll entered the kernel but {left} accepted submissions are still in the queue afterwards (the kernel stopped at a submission it refused; nothing submits the rest until some later call)"));
+                if self.stop {
+                    return;
+                }
+            }
+        }
         if trace_on() {
             let w: Vec<(usize, u64, u64)> = blocked_before.iter().map(|&i| (i, self.ops[i].wakes_at_poll, self.ops[i].waker.wakes())).collect();
             eprintln!("   ring poll done: sq {sq_head:#x}..{sq_tail:#x} cq {cq_head:#x}..{cq_tail:#x}; blocked (op, wakes at poll, wakes now) {w:?}");
